@@ -144,6 +144,10 @@ func (s *IntState) Next(req *Req) []*IntState {
 			case len(d) == 3 && d[0] == 0xcd:
 				n.SP -= 2
 				n.PC = uint16(d[2])<<8 | uint16(d[1])
+			case len(d) == 3 && d[0] == 0xc3:
+				// JP nn supplied by the device: no push at all
+				n.PushFree = false
+				n.PC = uint16(d[2])<<8 | uint16(d[1])
 			default:
 				n.Last = KUnknown
 			}
